@@ -213,10 +213,13 @@ class Interp:
         if isinstance(v, float):
             return fmt_num(v)
         if isinstance(v, str):
+            self.tick(len(v) // 64)
             return v
         if isinstance(v, LList):
+            self.tick(1 + len(v.items))  # (shared sub lists are written once per path to them)
             return "[" + ", ".join(self.to_str_quoted(x) for x in v.items) + "]"
         if isinstance(v, LTuple):
+            self.tick(1 + len(v.items))
             return "(" + ", ".join(self.to_str_quoted(x) for x in v.items) + ")"
         if isinstance(v, LMap):
             if not v.d:
@@ -644,6 +647,7 @@ class Interp:
                 else:
                     v = self.eval(p, env)
                     parts.append(self.str_of(v))
+                    self.tick(len(parts[-1]) // 16)
             return "".join(parts)
         if k == "lambda":
             clo = LClosure(self.lambda_names.get(id(e), "lambda"), e[1], e[2], env, "lambda", None, self.module_name,
@@ -769,6 +773,9 @@ class Interp:
             if both_num:
                 return l + r
             if both_str:
+                # data costs steps too: a loop that doubles a string would otherwise reach gigabytes (in the model
+                # and, afterwards, in the vm) long before it runs out of statements
+                self.tick((len(l) + len(r)) // 16)
                 return l + r
             raise self.error("RuntimeError", "Operands must be two numbers or two strings.")
         if op == "-":
